@@ -1309,8 +1309,21 @@ def _in_chain(ex, st, v):
     return False
 
 
+def _walk_var(ex):
+    """the local variable that walks up the tree: the target X of the statement `X = X.parent` in the function under
+    verification (so that the contract does not depend on how the local is called)"""
+    for n in ast.walk(ex.fn_node):
+        if isinstance(n, ast.Assign) and len(n.targets) == 1 and isinstance(n.targets[0], ast.Name) \
+                and isinstance(n.value, ast.Attribute) and n.value.attr == 'parent' and isinstance(n.value.value, ast.Name) \
+                and n.value.value.id == n.targets[0].id:
+            return n.targets[0].id
+    raise OutsideSubset('no statement of the form X = X.parent in the ancestor walk')
+
+
 def _chain_ghost(pred_src):
     def gi(ex, st):
+        var = _walk_var(ex)
+        st.ghost['WALKVAR'] = Func('spec.WALKVAR', model=lambda e, s_, a, k, s: [(s, s.env.get(var))])
         st.ghost['ANCPOS'] = Func('spec.ANCPOS', model=lambda e, s_, a, k, s: [(s, _ancpos(e, s, a[0]))])
         st.ghost['INCHAIN'] = Func('spec.INCHAIN', model=lambda e, s_, a, k, s: [(s, _in_chain(e, s, a[0]))])
         st.ghost['P'] = ex.spec_value(pred_src, st)
@@ -1328,14 +1341,15 @@ def _chain_bind(ex, head):
     anc = head.ghost['ANC']
     d = ex.zlen(head, anc)
     out = []
+    var = _walk_var(ex)
     s_none = head.fork()
-    s_none.env['parent'] = None
+    s_none.env[var] = None
     out.append(s_none)
     k = fresh('K', z3.IntSort())
     head.assume(z3.And(k >= 0, k < d))
     if smt.feasible(head.pc):
         for s1, e in _chain_elem(ex, head, k):
-            s1.env['parent'] = e
+            s1.env[var] = e
             # definition of MATCH for the concrete predicate P at this position
             val = _closure_value(ex, s1, s1.ghost['P'], e)
             if val is not None:
@@ -1346,7 +1360,7 @@ def _chain_bind(ex, head):
 
 
 _CHAIN_LOOP = {'0': {'bind': _chain_bind,
-                     'inv': ['INCHAIN(parent)', 'NOMATCH(P, ANC, 0, ANCPOS(parent))'],
+                     'inv': ['INCHAIN(WALKVAR())', 'NOMATCH(P, ANC, 0, ANCPOS(WALKVAR()))'],
                      'lemmas': []}}
 
 
